@@ -2,6 +2,7 @@ package main
 
 import (
 	"fmt"
+	"os"
 	"regexp"
 	"strconv"
 	"go/token"
@@ -185,6 +186,7 @@ type FuncRun struct {
 	scoutingHead *ssa.BasicBlock
 	backStates []*State
 	assumedOrder []string
+	curInstr string
 	addrLog    map[string][]addrWrite
 	cellLog    map[cellKey][]Val
 	spawned *WriteSet
@@ -357,6 +359,9 @@ func (fr *FuncRun) noteHeapWrite(h string) {
 		}
 	}
 	fr.allWrites.heaps[h] = true
+	if os.Getenv("GOVC_DEBUG_WRITES") != "" && !fr.curWriteFresh {
+		fmt.Fprintf(os.Stderr, "old-write %s scout=%d at %s\n", h, fr.scout, fr.curInstr)
+	}
 	if fr.curWriteFresh {
 		fr.freshHeapWrites[h] = true
 	} else {
